@@ -33,6 +33,12 @@ def dispatch_rows(prog):
                 if pl is not None and s2["k"] == "assign" and not s2["p"]["p"] and s2["p"]["l"] == pl["l"] and s2["rv"]["r"] == "agg":
                     v = s2["rv"].get("v")
             out.append([v or "?", canon(guards.reach_formula(b, S, bi)), b.where(st["ln"])])
+    # the character classes the branches test: a predicate function's return condition is a row of its own
+    for fid in sorted(prog.bodies):
+        cb = prog.bodies[fid]
+        if fid.startswith("tokenizer::is_") and cb.kind != "Closure" and cb.locals and cb.locals[0]["ty"] == "bool":
+            f = guards.value_formula(cb, A.summary(fid), 0)
+            out.append(["class " + fid.split("::")[-1], canon(f) if f is not None else None, cb.where()])
     return out
 
 
@@ -179,10 +185,10 @@ def r16_dispatch(chk, prog, rule="R16-dispatch"):
             if hit is not None:
                 left.remove(hit)
             else:
-                chk.add(Finding(rule, "%s::%s::missing" % (rule, tt), "tokenize_core no longer builds a %s token under the reviewed condition (precedence of the scanner's branches changed, or a test was altered)" % tt, "a2lfile/src/tokenizer.rs"))
+                chk.add(Finding(rule, "%s::%s::missing" % (rule, tt), ("the character class %s of the scanner no longer accepts exactly the reviewed characters" % tt[6:]) if tt.startswith("class ") else "tokenize_core no longer builds a %s token under the reviewed condition (precedence of the scanner's branches changed, or a test was altered)" % tt, "a2lfile/src/tokenizer.rs"))
         for r in left:
             chk.add(Finding(rule, "%s::%s::new" % (rule, r[0]), "tokenize_core builds a %s token under a condition that is not in the reviewed table" % r[0], r[2]))
-    chk.rule(rule, "token constructions in tokenize_core with their in-iteration reaching condition, compared with the reviewed table", n, floor=10)
+    chk.rule(rule, "token constructions in tokenize_core with their in-iteration reaching condition, and the scanner's character classes, compared with the reviewed table", n, floor=13)
 
 
 def producer_chain(b, l, depth=0):
